@@ -767,6 +767,20 @@ def corpus():
     hand = ("Title: carry me away\n  extended mix\nArtist: >\n  lapix and\n  friends\nDescription: |\n  line one\n  line two\n"
             "Source: \"double quoted\n  continued\"\nTags: a b c\n  d e\nInitialScrollVelocity: 1.0\n"
             "HitObjects:\n- StartTime: 100\n  Lane: 2\n  KeySounds: []\nTimingPoints:\n- StartTime: 0\n  Bpm: 120.0\nSliderVelocities: []\n")
+    # the text layer: a file laid out the way the Quaver editor writes it (block style, dashes at the key's column, one-line
+    # plain / single-quoted scalars) lies inside the subset parseQua reads; the bundled rsc/maps/qua/*.qua do too
+    editor = ("AudioFile: audio.mp3\nSongPreviewTime: 32455\nBackgroundFile: bg file.jpg\nMapId: -1\nMapSetId: -1\nMode: Keys4\n"
+              "Title: Carry Me Away (Extended Mix)\nArtist: lapix\nSource: ''\nTags: 'one two'\nCreator: '123'\n"
+              "DifficultyName: 4K - it's no.1\nDescription: Created at 1568028960304\nBPMDoesNotAffectScrollVelocity: true\n"
+              "InitialScrollVelocity: 1.5\nEditorLayers: []\nCustomAudioSamples: []\nSoundEffects: []\n"
+              "TimingPoints:\n- StartTime: 601\n  Bpm: 175\n- StartTime: 1200.5\n  Bpm: 87.5\n"
+              "SliderVelocities:\n- StartTime: 601\n  Multiplier: 0.85\n- Multiplier: 1.0e-07\n"
+              "HitObjects:\n- StartTime: 601\n  Lane: 2\n  KeySounds: []\n- StartTime: 772\n  Lane: 4\n  EndTime: 943\n  KeySounds:\n"
+              "  - Sample: 1\n    Volume: 100\n  - Sample: 2\n    Volume: 50\n- Lane: 1\n  KeySounds: []\n")
+    c.extend(dict(claim="text", bundled=b) for b in BUNDLED)
+    c.append(dict(claim="read", text=editor))
+    c.append(dict(claim="wr", text=editor))
+    c.append(dict(claim="read", text=editor, via="file"))
     for via in ("file", "file_crlf", "lines"):
         c.append(dict(claim="read", text=hand, via=via))
         c.append(dict(claim="wr", via=via, doc=_doc(ho=[dict(StartTime=1, Lane=1, KeySounds=ks0)], Title=long_title, Tags=" ".join(tags30),
@@ -814,6 +828,8 @@ def corpus():
 def valid(case):
     try:
         cl = case["claim"]
+        if cl == "text":
+            return case.get("bundled") in BUNDLED
         if case.get("via", "text") not in VIAS:
             return False
         if cl in ("read", "wr"):
@@ -1246,7 +1262,33 @@ def text_write_check(drv, model_doc, text, pdoc, wire, tags, detail):
 # ------------------------------------------------------------------------------------------ run
 
 def run(case, drv):
-    return dict(read=run_read, write=run_write, rw=run_rw, wr=run_wr)[case["claim"]](case, drv)
+    return dict(read=run_read, write=run_write, rw=run_rw, wr=run_wr, text=run_text)[case["claim"]](case, drv)
+
+
+BUNDLED = ("rsc/maps/qua/NeuroCloud.qua",)
+
+
+def run_text(case, drv):
+    """text layer only: a .qua file written by the Quaver editor (bundled with the repository; it carries per-object keys
+    the chart model does not know, so it is no `read` case) - parseQua must accept it and agree with yaml.safe_load"""
+    import os
+    import sys
+    import yaml
+    path = os.path.join(os.environ.get("REAMBER_REPO", sys.path[0] or "/repo"), case["bundled"])
+    with open(path, "rb") as f:
+        text = f.read().decode("utf-8-sig").replace("\r\n", "\n")
+    py = yaml.safe_load(text)
+    p = drv.call("c06.parse_text", text=text)["ok"]
+    tags, detail, agree = ["bundled-file"], {}, True
+    if p["tree"] is None:
+        agree = False
+        detail["text_parse"] = "parseQua rejects the bundled editor-written file " + case["bundled"]
+    elif not tree_matches_py(p["tree"], py):
+        agree = False
+        detail["text_parse"] = "parseQua and yaml.safe_load differ on " + case["bundled"]
+    else:
+        tags.append("re-emitted-identically" if p["reemit"] == text else "re-emitted-differently")
+    return dict(claim="text", ok=True, agree=agree, dom=True, kf=None, tags=tags, nontrivial=True, maxdev=0.0, detail=detail)
 
 
 def _text_tags(text):
